@@ -232,6 +232,23 @@ pub fn gen(seed: u64, thorough: bool) {
             }
         }
     }
+    // (e) the closing quote is missing (with and without invalid UTF-8 before the end: the lossy decoders work on a longer copy)
+    let opens: &[&[u8]] = &[b"", b"a", b"abc", b"a\xff", b"\xff", b"abc\xe5\x93", b"\xc3\xa9", b"\xf0\x9f\x98", b"a\xffb\xfe\xfdc", b"\\n\xff", b"\xff\\", b"\xff\\u00e"];
+    for body in opens {
+        for off in [0usize, 2, 31] {
+            for len in [0usize, 1, 29, 30, 31, 32, 33, 61, 62, 63, 64, 65] {
+                for arr in [false, true] {
+                    let mut d = vec![b' '; off];
+                    if arr { d.push(b'['); }
+                    let ls = d.len();
+                    d.push(b'"');
+                    d.extend((0..len).map(|k| b'a' + (k % 26) as u8));
+                    d.extend_from_slice(body);
+                    out.line(&format!("c09 {} {} {}", hex(&d), ls, if arr { 'a' } else { 'p' }));
+                }
+            }
+        }
+    }
     // (d) random bodies with mutations
     let n = if thorough { 40000 } else { 3000 };
     let cfg = GenCfg::default();
